@@ -717,7 +717,21 @@ func (a *Analysis) CheckC16(rep *Report) {
 			}
 			nfiles++
 			for _, imp := range f.Imports {
-				rep.Ob("Z2-no-unsafe", pk.PkgPath+":"+imp.Path.Value, imp.Path.Value != `"unsafe"`, a.P.Pos(imp.Pos()), "non-test file imports unsafe: zero-copy views of the buffer become possible")
+				okImp := imp.Path.Value != `"unsafe"`
+				if !okImp {
+					// unsafe imported only for its compile-time constants (Sizeof, Alignof, Offsetof) makes no view of anything
+					okImp = true
+					for id, obj := range pk.TypesInfo.Uses {
+						if obj.Pkg() != nil && obj.Pkg().Path() == "unsafe" && id.Pos() >= f.Pos() && id.Pos() <= f.End() {
+							switch obj.Name() {
+							case "Sizeof", "Alignof", "Offsetof":
+							default:
+								okImp = false
+							}
+						}
+					}
+				}
+				rep.Ob("Z2-no-unsafe", pk.PkgPath+":"+imp.Path.Value, okImp, a.P.Pos(imp.Pos()), "non-test file imports unsafe: zero-copy views of the buffer become possible")
 			}
 		}
 		for id, obj := range pk.TypesInfo.Uses {
